@@ -84,6 +84,9 @@ PRODUCTIONS = [
     ('LS', 'reversed({LS})'), ('LS', 'sorted({LS}, None, True)'), ('LS', 'sorted({LS}, v => len(v))'),
     ('D', '⟦{K}: {N}, {K}: {N}⟧'), ('D', 'dict({D})'), ('D', '⟦{N}: {N}⟧'), ('D', '⟦"k": {N}, "l": {LN}⟧'), ('D', '⟦{B}: {N}, {O}: {S}⟧'),
     ('T', 'items({D})'), ('T', 'enumerate({LN})'), ('T', 'enumerate({S})'), ('T', 'map({LN}, v => [v, {N}])'), ('T', '[{LN}, {D}, {S}]'),
+    # trailing commas in the three call syntaxes: the arguments still count
+    ('LS', '{S} | split({S}, )'), ('S', '{LS}.join({S}, )'), ('S', '{S}.replace({S}, {S},)'), ('N', 'round({N}, 1, )'), ('N', '{N} | round(1,)'),
+    ('LN', '{LN} | sorted(None, True, )'), ('N', '{D}.get({K}, {N}, )'), ('LN', '{LN} | map(v => v + 1, )'), ('N', 'max({N}, {N}, )'),
     ('T', '⟦"a": {LN}, "b": {D}⟧'), ('T', 'map(items({D}), p => p[0])'), ('T', 'map(enumerate({LN}), p => p[1] * p[0])'),
 ]
 
